@@ -30,6 +30,7 @@ type c03Op struct {
 	API      string `json:"api,omitempty"`      // "" = snap | json | yaml
 	Bad      string `json:"bad,omitempty"`      // "" | invalid (Val is not a document) | matcher (a matcher on a missing path)
 	NoCreate bool   `json:"nocreate,omitempty"` // Update(false): a missing slot may not be created
+	Spell    string `json:"spell,omitempty"`    // how the Dir option spells the (same) directory: "" | slash | dot | dotdot | double
 }
 
 type c03Case struct {
@@ -165,11 +166,11 @@ func c03Apply(c *vfCtx, cs c03Case, checkFrom int) (key uint64, ok bool) {
 		var want, slot, id string
 		if op.Bad != "" {
 			// a call that is rejected before it reaches the file: it still consumes its ordinal
-			c03Rejected(cl, op.Bad, t, dir)
+			c03Rejected(cl, op.Bad, t, vfSpellDir(dir, op.Spell))
 			m.fail(op.Test, cl)
 			want, slot, id = "failed", "rejected", "-"
 		} else {
-			cl.do(t, dir)
+			cl.do(t, vfSpellDir(dir, op.Spell))
 			want, slot, id = m.call(op.Test, cl, vfFormat(cl))
 		}
 		got := t.outcome(mk)
@@ -575,6 +576,54 @@ func c03CRLF(emit func(c03Case)) {
 	}
 }
 
+// c03Spellings: the calls of one test reach the SAME file through Configs whose Dir option spells the directory differently
+// (trailing slash, /./, //, x/../x): one file, one numbering. Three executions: record, replay, update of the middle slot.
+func c03Spellings(emit func(c03Case)) {
+	for _, order := range [][]string{{"", "dot", "slash"}, {"slash", "", "double"}, {"dotdot", "dot", ""}, {"double", "double", "dotdot"}} {
+		var ops []c03Op
+		for exec := 0; exec < 3; exec++ {
+			for i, sp := range order {
+				o := c03Op{Op: "call", Test: "TestA", Val: fmt.Sprintf("v%d", i), Spell: sp}
+				if exec == 2 && i == 1 {
+					o.Val, o.Upd = "changed", true
+				}
+				ops = append(ops, o)
+				if i == 0 {
+					ops = append(ops, c03Op{Op: "call", Test: "TestB", Val: "b", Spell: order[(exec+1)%len(order)]})
+				}
+			}
+			ops = append(ops, c03Op{Op: "end", Test: "TestA"}, c03Op{Op: "end", Test: "TestB"})
+		}
+		emit(c03Case{Ops: ops})
+	}
+}
+
+// c03OnlyRejected: an execution in which EVERY call of the test is rejected before it reaches the file (not a document), then
+// the test is executed again with valid input: the numbering starts at 1 again.
+func c03OnlyRejected(emit func(c03Case)) {
+	for _, d := range [][3]string{{"json", "{", "%d"}, {"yaml", "a: [\n", "a: %d"}} {
+		for n := 1; n <= 2; n++ {
+			for _, other := range []bool{false, true} {
+				var ops []c03Op
+				for i := 0; i < n; i++ {
+					ops = append(ops, c03Op{Op: "call", Test: "TestA", API: d[0], Val: d[1], Bad: "invalid"})
+				}
+				if other {
+					ops = append(ops, c03Op{Op: "call", Test: "TestB", API: d[0], Val: fmt.Sprintf(d[2], 7)})
+				}
+				ops = append(ops, c03Op{Op: "end", Test: "TestA"})
+				for exec := 0; exec < 2; exec++ {
+					for i := 1; i <= 2; i++ {
+						ops = append(ops, c03Op{Op: "call", Test: "TestA", API: d[0], Val: fmt.Sprintf(d[2], i)})
+					}
+					ops = append(ops, c03Op{Op: "end", Test: "TestA"})
+				}
+				emit(c03Case{Ops: ops})
+			}
+		}
+	}
+}
+
 // c03TwoFiles: one test alternating between two snapshot files, executed three times.
 func c03TwoFiles(emit func(c03Case)) {
 	for _, pattern := range [][]string{{"", "g"}, {"g", ""}, {"", "g", "g", ""}, {"", "", "g", "g", "g"}, {"g", "g", ""}} {
@@ -672,6 +721,8 @@ func init() {
 			c03NoCreate(emit)
 			c03CleanupCalls(emit)
 			c03CRLF(emit)
+			c03Spellings(emit)
+			c03OnlyRejected(emit)
 		}
 		lin(func(cs c03Case) {
 			if !c.mine() {
